@@ -5,6 +5,8 @@ import random
 
 BOOL = [("a", 0, 1), ("A", 0, 1), ("b", 0, 1), ("c", 0, 1), ("Z", 0, 1), ("e", 0, 1), ("f", 0, 1)]
 INTS = [("t", -1, 2), ("u", 0, 2), ("w", -2, 1), ("x", 1, 3), ("z", -3, -1)]
+DEGEN = [("k", 1, 1), ("o", 0, 0)]          # boolean leaves with degenerate bounds
+WIDE = [("W", -32768, 32767), ("Y", 0, 20000), ("V", -20000, 5), ("X", -40000, 40000)]   # 16-bit ranges and beyond
 
 def leaf(l):
     return {"c": "leaf", "id": l[0], "lo": l[1], "hi": l[2]}
@@ -12,10 +14,11 @@ def leaf(l):
 class Gen:
     def __init__(self, rng, classes=("AtLeast", "AtMost", "All", "Any", "Xor", "XNor", "Imply", "Not"),
                  ints=True, max_kids=4, depth=3, explicit=0.5, share=0.3, max_box=256, values=(-3, 4),
-                 documented=False):
+                 documented=False, prefix=0.0, wide=False):
         self.rng, self.classes, self.ints = rng, list(classes), ints
         self.max_kids, self.depth, self.explicit, self.share = max_kids, depth, explicit, share
-        self.max_box, self.values, self.documented = max_box, values, documented
+        self.max_box, self.values, self.documented, self.prefix = max_box, values, documented, prefix
+        self.wide = wide
 
     def recipe(self):
         """one random recipe with pairwise distinct explicit ids, consistent leaves, bounded assignment box"""
@@ -25,12 +28,19 @@ class Gen:
             pool = self.rng.sample(BOOL, self.rng.randint(2, 6))
             if self.ints:
                 pool += self.rng.sample(INTS, self.rng.randint(0, 2))
+            if self.rng.random() < 0.3:
+                pool.append(self.rng.choice(DEGEN))
+            if self.wide:
+                pool += self.rng.sample(WIDE, self.rng.randint(1, 2))
             self.pool = pool
             r = self.comp(self.rng.randint(1, self.depth))
             lv = {}
             _leaves(r, lv)
             box = 1
             for lo, hi in lv.values(): box *= hi - lo + 1
+            if self.wide:
+                if any(hi - lo > 1000 for lo, hi in lv.values()): return r
+                continue
             if box <= self.max_box:
                 return r
         raise RuntimeError("could not generate a recipe within the box limit")
@@ -72,7 +82,10 @@ class Gen:
             # the default alternative is a leaf that cannot go negative (DESIGN observation O4)
             lk = [k["id"] for k in kids if k["c"] == "leaf" and k["lo"] >= 0]
             if lk and rng.random() < 0.7: d = rng.choice(lk)
-        r = {"c": c, "a": kids, "id": ident, "v": v, "s": s, "d": d}
+        f = -1
+        if ident and self.prefix and c not in ("ccAny", "ccXor") and rng.random() < self.prefix:
+            f = rng.choice([0, 1])
+        r = {"c": c, "a": kids, "id": ident, "v": v, "s": s, "d": d, "f": f}
         self.made.append(r)
         return r
 
@@ -88,9 +101,12 @@ def features(r):
         if x["c"] == "leaf":
             if x["lo"] < 0: f.add("neg_lower_leaf")
             if (x["lo"], x["hi"]) != (0, 1): f.add("int_leaf")
+            if x["lo"] == x["hi"]: f.add("degenerate_leaf")
+            if x["hi"] - x["lo"] > 1000: f.add("wide_leaf")
             return d
         if len(x["a"]) >= 4: f.add("kids>=4")
         if x["id"]: f.add("explicit_id")
+        if x.get("f", -1) != -1: f.add("prefixed_compound")
         else: f.add("generated_id")
         if x["c"] in ("AtLeast", "AtMost") and (x["v"] > len(x["a"]) or x["v"] < 0): f.add("value_out_of_range")
         if (x["c"] == "AtMost" or (x["c"] == "AtLeast" and (x["s"] == -1 or (x["s"] == 0 and x["v"] <= 0)))) and any(k["c"] != "leaf" for k in x["a"]):
